@@ -1159,10 +1159,10 @@ Proof. intros H. rewrite <- pos_of_sub, N.land_spec, H. apply andb_false_r. Qed.
 Lemma neg_of_nontype l k : N.testbit M_FROM_ALL_TYPES k = false -> N.testbit (neg_of l) k = false.
 Proof. intros H. rewrite <- neg_of_sub, N.land_spec, H. apply andb_false_r. Qed.
 
-Ltac flag_bit W H l :=
+Ltac flag_bit W H l k :=
   rewrite (build_rule_mask _ _ _ _ W H);
   rewrite has_flag_bit, (final_bit _ _ _ _ _ (pos_of_15 l)); cbv zeta;
-  rewrite ?(pos_of_nontype l _ eq_refl), ?(neg_of_nontype l _ eq_refl).
+  rewrite (pos_of_nontype _ k eq_refl), (neg_of_nontype _ k eq_refl).
 
 Section ParsedFlags.
   Variables (h : str -> N) (sh : shape) (opts : list nfopt) (p : parsed).
@@ -1172,42 +1172,42 @@ Section ParsedFlags.
 
   Lemma parsed_third_party : third_party (p_mask p) = sem_third_ok l.
   Proof.
-    unfold third_party. change M_THIRD_PARTY with (2 ^ 16). flag_bit W H l.
+    unfold third_party. change M_THIRD_PARTY with (2 ^ 16). flag_bit W H l 16.
     fold l. rewrite MM_16. destruct (sh_scheme sh); unfold sset, sclr; tb_const; btauto.
   Qed.
   Lemma parsed_first_party : first_party (p_mask p) = sem_first_ok l.
   Proof.
-    unfold first_party. change M_FIRST_PARTY with (2 ^ 17). flag_bit W H l.
+    unfold first_party. change M_FIRST_PARTY with (2 ^ 17). flag_bit W H l 17.
     fold l. rewrite MM_17. destruct (sh_scheme sh); unfold sset, sclr; tb_const; btauto.
   Qed.
   Lemma parsed_for_http : for_http (p_mask p) = sem_http_ok (sh_scheme sh).
   Proof.
-    unfold for_http. change M_FROM_HTTP with (2 ^ 11). flag_bit W H l.
+    unfold for_http. change M_FROM_HTTP with (2 ^ 11). flag_bit W H l 11.
     fold l. rewrite MM_11. destruct (sh_scheme sh); unfold sset, sclr; tb_const; cbn [sem_http_ok]; btauto.
   Qed.
   Lemma parsed_for_https : for_https (p_mask p) = sem_https_ok (sh_scheme sh).
   Proof.
-    unfold for_https. change M_FROM_HTTPS with (2 ^ 12). flag_bit W H l.
+    unfold for_https. change M_FROM_HTTPS with (2 ^ 12). flag_bit W H l 12.
     fold l. rewrite MM_12. destruct (sh_scheme sh); unfold sset, sclr; tb_const; cbn [sem_https_ok]; btauto.
   Qed.
   Lemma parsed_badfilter : is_badfilter (p_mask p) = has_atom A_badfilter l.
   Proof.
-    unfold is_badfilter. change M_BAD_FILTER with (2 ^ 27). flag_bit W H l.
+    unfold is_badfilter. change M_BAD_FILTER with (2 ^ 27). flag_bit W H l 27.
     fold l. rewrite MM_27. destruct (sh_scheme sh); unfold sset, sclr; tb_const; btauto.
   Qed.
   Lemma parsed_exception : is_exception (p_mask p) = sh_exception sh.
   Proof.
-    unfold is_exception. change M_IS_EXCEPTION with (2 ^ 22). flag_bit W H l.
+    unfold is_exception. change M_IS_EXCEPTION with (2 ^ 22). flag_bit W H l 22.
     fold l. rewrite MM_22. destruct (sh_scheme sh); unfold sset, sclr; tb_const; btauto.
   Qed.
   Lemma parsed_unmatched : has_flag (p_mask p) M_UNMATCHED = false.
   Proof.
-    change M_UNMATCHED with (2 ^ 25). flag_bit W H l.
+    change M_UNMATCHED with (2 ^ 25). flag_bit W H l 25.
     fold l. rewrite MM_25. destruct (sh_scheme sh); unfold sset, sclr; tb_const; btauto.
   Qed.
   Lemma parsed_match_case : has_flag (p_mask p) M_MATCH_CASE = has_atom A_matchcase l.
   Proof.
-    change M_MATCH_CASE with (2 ^ 14). flag_bit W H l.
+    change M_MATCH_CASE with (2 ^ 14). flag_bit W H l 14.
     fold l. rewrite MM_14. destruct (sh_scheme sh); unfold sset, sclr; tb_const; btauto.
   Qed.
 
@@ -1264,8 +1264,8 @@ Section ParsedFlags.
     rewrite (parsed_rule_check_spec h sh opts p r H).
     rewrite parsed_badfilter, parsed_allowed_type, parsed_party_ok.
     assert (Hx : rq_http r && rq_https r = false).
-    { unfold r, from_detailed_parameters. destruct (is_nil schema); cbn; [reflexivity|].
-      destruct (str_eqb schema (bs "http")); reflexivity. }
+    { unfold r, from_detailed_parameters. destruct (is_nil schema); [reflexivity|].
+      cbn [rq_http rq_https]. destruct (str_eqb schema (bs "http")); reflexivity. }
     rewrite (parsed_scheme_ok r Hx F).
     assert (Hs : rq_src r = source_hostname_hashes h src).
     { unfold r, from_detailed_parameters. destruct (is_nil schema); reflexivity. }
@@ -1312,12 +1312,8 @@ Lemma ws_forces_type h raw_type schema src third :
   mem_str schema [bs "ws"; bs "wss"]%string = true ->
   rq_type (from_detailed_parameters h raw_type schema src third) = RT_Websocket.
 Proof.
-  unfold from_detailed_parameters. destruct schema as [|c s]; [discriminate|].
-  cbn [is_nil mem_str rq_type orb].
-  destruct (str_eqb (c :: s) (bs "http")) eqn:A, (str_eqb (c :: s) (bs "https")) eqn:B,
-    (str_eqb (c :: s) (bs "ws")) eqn:C, (str_eqb (c :: s) (bs "wss")) eqn:D; cbn; try reflexivity; try discriminate;
-    apply str_eqb_eq in A || apply str_eqb_eq in B; try (apply str_eqb_eq in C); try (apply str_eqb_eq in D);
-    congruence.
+  intros M. cbn [mem_str] in M. rewrite orb_false_r in M.
+  apply orb_true_iff in M as [M|M]; apply str_eqb_eq in M; subst schema; reflexivity.
 Qed.
 
 (* ========================================================================================== *)
